@@ -75,7 +75,33 @@ def gen_binomial(ctx):
     ctx.add_run("GenBinomial/reach", rr)
     if tlc.invariant_violated(rr) is None:
         raise fw.Machinery("vacuity: the binomial generator model never reaches its end")
-    return {"cfg": cfg, "states": r["distinct"], "all_clauses_hold": True, "optimal_steps": True}
+    lv = tlc.run("GenBinomial", cfg="GenBinomialLive.cfg", timeout=600, workers=4)
+    ctx.add_run("GenBinomial/liveness", lv)
+    if not lv["ok"]:
+        raise fw.Machinery(f"the binomial generator model does not terminate under fairness: {lv['error']}")
+    return {"cfg": cfg, "states": r["distinct"], "all_clauses_hold": True, "optimal_steps": True,
+            "terminates_under_weak_fairness": True}
+
+
+def gen_mixed(ctx):
+    """GenMixed: every resolution of the optimal planner choice is executable, clean, takes the
+    optimum of the mixed recurrence, and terminates (design level, no code)."""
+    cfg = "GenMixed.cfg" if ctx.tier == "quick" else "GenMixed14.cfg"
+    r = tlc.run("GenMixed", cfg=cfg, timeout=1200, workers=12)
+    ctx.add_run("GenMixed/" + cfg, r)
+    if not r["ok"]:
+        raise fw.Machinery(f"the mixed generator model fails at design level ({cfg}): "
+                           f"{tlc.invariant_violated(r)} {r['error']}")
+    rr = tlc.run("GenMixed", cfg="GenMixedReach.cfg", timeout=300, workers=4)
+    ctx.add_run("GenMixed/reach", rr)
+    if tlc.invariant_violated(rr) is None:
+        raise fw.Machinery("vacuity: the mixed generator model never reaches its end")
+    lv = tlc.run("GenMixed", cfg="GenMixedLive.cfg", timeout=600, workers=4)
+    ctx.add_run("GenMixed/liveness", lv)
+    if not lv["ok"]:
+        raise fw.Machinery(f"the mixed generator model does not terminate under fairness: {lv['error']}")
+    return {"cfg": cfg, "states": r["distinct"], "all_clauses_hold": True, "optimal_steps": True,
+            "terminates_under_weak_fairness": True}
 
 
 def gen_twolevel(ctx):
